@@ -498,7 +498,7 @@ def as_format(T, fmt):
 
 @st.composite
 def weights(draw, min_n=1, max_n=9):
-    fam = draw(st.sampled_from(["dense_pos", "reversible", "rotor", "bipartite", "sparse_pattern"]))
+    fam = draw(st.sampled_from(["dense_pos", "reversible", "rotor", "bipartite", "sparse_pattern", "near_symmetric"]))
     n = draw(st.integers(max(min_n, 2 if fam == "bipartite" else min_n), max_n))
     W = [[0] * n for _ in range(n)]
     if fam == "dense_pos":
@@ -512,6 +512,15 @@ def weights(draw, min_n=1, max_n=9):
                 W[i][j] = W[j][i] = w
         if n == 1:
             W[0][0] += 1
+    elif fam == "near_symmetric":
+        # a symmetric (circulant) well-connected chain plus a relative asymmetry of 1e-7 .. 1e-5: "symmetric" to
+        # np.allclose, yet its stationary distribution is measurably (>= 1e-7) not uniform; well conditioned
+        c = [draw(st.integers(1, 30)) for _ in range(n // 2 + 1)]
+        scale = draw(st.sampled_from([10 ** 6, 10 ** 7, 10 ** 8]))
+        for i in range(n):
+            for j in range(n):
+                d = abs(i - j)
+                W[i][j] = c[min(d, n - d)] * scale + (draw(st.integers(0, 40)) if i != j else 0)
     elif fam == "rotor":
         big = draw(st.integers(10, 60))
         for i in range(n):
